@@ -214,6 +214,12 @@ def Writer.writeBitarray (w : Writer) (bits : Int) (value : List Bool) : Except 
   if (value.length : Int) > bits then .error .outOfRange
   else w.writeBits (value ++ List.replicate (bits.toNat - value.length) false)
 
+/-- `write_bytes(num_bytes, value)`: too long a string is an OutOfRangeError; otherwise byte by byte through
+    `write_nbits(8, ·)` - so with the bounded-block rules of every other write - then zero bytes up to `num_bytes` -/
+def Writer.writeBytes (w : Writer) (n : Nat) (bs : List Nat) : Except IOErr Writer :=
+  if bs.length > n then .error .outOfRange
+  else (bs ++ List.replicate (n - bs.length) 0).foldlM (fun (w : Writer) (b : Nat) => w.writeNbits 8 (b : Int)) w
+
 /-- exp-Golomb pairs `0, bit i` for `i = j-1 … 0` -/
 def encPairs (m : Nat) : Nat → List Bool
   | 0 => []
